@@ -320,6 +320,36 @@ def table_cells(sx, name, rows_src, cols_src):
     return None, "no row loop over `%s` filling `%s`" % (show(rows_src), name)
 
 
+def table_expr(sx, t, rows_src, cols_src, depth=0):
+    """Cell term of a length x width table given as an expression: a nested comprehension over range(length) x
+    range(width), a per-cell projection of another such table (`[[f(c) for c in row] for row in T]`), or a variable
+    filled by the loop idioms of table_cells.  ('ok', cell) | ('bad', text) | (None, text)."""
+    from ..symx import subst
+    if depth > 3:
+        return None, "table expression too deep"
+    if t[0] == "res":
+        return table_cells(sx, t[2], rows_src, cols_src)
+    if t[0] == "compr" and t[1] in sx.loops:
+        Lo = sx.loops[t[1]]
+        if Lo.ckind != "list" or Lo.elt[0] != "compr":
+            return None, "`%s` is not a comprehension of row comprehensions" % show(t)[:60]
+        Li = sx.loops[Lo.elt[1]]
+        if Lo.filters or Li.filters or Li.ckind != "list":
+            return "bad", "the table comprehension is filtered"
+        if Lo.source == rows_src:
+            if Li.source != cols_src:
+                return "bad", "columns come from `%s`" % show(Li.source)
+            return "ok", Li.elt
+        if Li.source == ("elem", Lo.id):
+            v, cell = table_expr(sx, Lo.source, rows_src, cols_src, depth + 1)
+            if v != "ok":
+                return v, cell
+            el = ("elem", Li.id)
+            return "ok", subst(Li.elt, lambda x: cell if x == el else None, ) if True else None
+        return "bad", "rows come from `%s`" % show(Lo.source)
+    return None, "`%s`" % show(t)[:80]
+
+
 def r45_shape_values(ctx, chk, rule4="C15.4", rule5="C15.5", rule6="C15.6"):
     f = ctx.func(GEN + "::gen_rnd_board")
     sx = SymX(ctx, f, inline_depth=2, no_inline=("get_random_moves",)).run()
@@ -329,17 +359,13 @@ def r45_shape_values(ctx, chk, rule4="C15.4", rule5="C15.5", rule6="C15.6"):
     if ret[0] != "tup" or len(ret[1]) != 3:
         chk.undecided(rule4, f.where(), "gen_rnd_board does not return (moves, rewards, loose_tiles): %s" % show(ret)[:80])
         return
-    names = {}
-    for slot, what in ((1, "rewards"), (2, "loose_tiles")):
-        t = ret[1][slot]
-        names[what] = t[2] if t[0] == "res" else None
+    from ..symx import deep_simp
     U = ("call", "random.random", (), ())
     vals = {}
-    for what, nm in names.items():
-        if nm is None:
-            chk.undecided(rule4, f.where(), "returned %s is `%s`" % (what, show(ret[1][1 if what == "rewards" else 2])[:80]))
-            continue
-        verdict, val = table_cells(sx, nm, rows_src, cols_src)
+    for slot, what in ((1, "rewards"), (2, "loose_tiles")):
+        verdict, val = table_expr(sx, ret[1][slot], rows_src, cols_src)
+        if verdict == "ok":
+            val = deep_simp(val)
         if verdict == "ok":
             chk.ok(rule4, f.where(), "%s: `length` rows x `width` unconditional appends" % what)
             vals[what] = val
@@ -377,22 +403,34 @@ def r45_shape_values(ctx, chk, rule4="C15.4", rule5="C15.5", rule6="C15.6"):
     sg = SymX(ctx, g, inline_depth=1).run()
     mret = sg.ret
     gl, gw, gfd = ("v", g.params[0]), ("v", g.params[1]), ("truthy", ("v", g.params[2]))
-    if mret[0] != "res":
+    from ..symx import assume_deep as assume, deep_simp, subst
+    if mret[0] == "compr" and mret[1] in sg.loops:
+        # [row(...) for _ in range(length)]
+        L = sg.loops[mret[1]]
+        if L.ckind != "list" or L.filters or L.source != ("call", "range", (gl,), ()):
+            chk.violation(rule4, g.where(), "get_random_moves does not build one row per `range(length)`", expected="one row per range(length)", found=show(L.source),
+                          construct="get_random_moves rows")
+            return
+        acc, var = ("acc", L.id, "$rows"), "$rows"
+        u = simp(("cat", acc, ("list", (L.elt,))))
+    elif mret[0] == "res":
+        L = sg.loops[mret[1]]
+        var = mret[2]
+        if L.kind != "for" or L.source != ("call", "range", (gl,), ()) or L.init.get(var) != ("list", ()) or L.has_break or L.cont != FALSE:
+            chk.violation(rule4, g.where(), "get_random_moves does not build one row per `range(length)`", expected="for i in range(length)", found=show(L.source),
+                          construct="get_random_moves rows")
+            return
+        acc = ("acc", L.id, var)
+        u = L.update[var]
+    else:
         chk.undecided(rule4, g.where(), "get_random_moves returns `%s`" % show(mret)[:80])
         return
-    L = sg.loops[mret[1]]
-    var = mret[2]
-    if L.kind != "for" or L.source != ("call", "range", (gl,), ()) or L.init.get(var) != ("list", ()) or L.has_break or L.cont != FALSE:
-        chk.violation(rule4, g.where(), "get_random_moves does not build one row per `range(length)`", expected="for i in range(length)", found=show(L.source),
-                      construct="get_random_moves rows")
-        return
-    from ..symx import assume_deep as assume
-    acc = ("acc", L.id, var)
-    u = L.update[var]
     rr = (("call", "random.randrange", (C(0), gw), ()), ("call", "random.randrange", (gw,), ()))
 
     def row_of(flag):
         t = assume(u, gfd, flag)
+        # bool(flag) / table[flag] after the flag is fixed
+        t = deep_simp(subst(t, lambda x: C(flag) if x == ("call", "bool", (("v", g.params[2]),), ()) else None))
         if not (t[0] == "cat" and t[1] == acc and t[2][0] == "list" and len(t[2][1]) == 1):
             return None, None
         row = t[2][1][0]
